@@ -23,9 +23,13 @@ DESIGN.md C12 list -> names here:
         flip_neg_factor_sound, flip_pos_factor_sound, flipB_complement, comparator_single_token,
         comparator_priority_witness, equals_spec, testpoint_decides_flip, testpoint_on_boundary_witness,
         merge_exclusive_none_iff_partial_witness : the string-free cores of symbolic.py
+  (third layer, Model/SymbolicTop.lean) simplify_top_all_complete, simplify_top_all_sound, simplify_top_inside,
+        simplify_top_single_member, single_case_not_whole_witness : the top level of `simplify` (absval cases ->
+        one `_simplify` per case -> flatten -> select) as a function of THIS call's values only
 -/
 import MysticVerif.Proofs.Symbolic
 import MysticVerif.Proofs.Symbolic2
+import MysticVerif.Proofs.SymbolicTop
 
 namespace MysticVerif.C12
 open MysticVerif.Sym
@@ -373,6 +377,78 @@ theorem merge_exclusive_none_iff_partial_witness :
   have h1 := h ⟨1, .lt⟩ (by simp)
   simp [TLine.holds, Cmp.holds] at h0 h1
   linarith
+
+/-! ## the top level of `simplify` (third layer, Model/SymbolicTop.lean): every call computes every case anew -/
+
+section top
+variable {T U X : Type}
+
+/-- the points at which what `_simplify` returned for one case holds: SOME returned text holds (`None` = a case
+without solutions contributes nothing) -/
+def retHolds (sat : U → X → Prop) (r : Ret U) (x : X) : Prop := ∃ u, some u ∈ r.elems ∧ sat u x
+
+/-- the points at which what `simplify` returned holds: some returned case holds -/
+def topHolds (sat : U → X → Prop) (t : TopRet U) (x : X) : Prop := ∃ u, some u ∈ t.cases ∧ sat u x
+
+/-- **simplify(all=True) returns EVERY case of EVERY `_simplify` result of this call** (l.807-810): the returned
+cases are the elements of `simple ci` for the case texts `ci` of `absval`, in order, nothing selected away.  (This is
+the statement a remembered single-case answer of an earlier `all=False` call breaks.) -/
+theorem simplify_top_all_complete (r : Nat) (cons : Ret T) (simple : T → Ret U) :
+    (simplifyTop true r cons simple).cases = cons.texts.flatMap fun c => (simple c).elems := by
+  rw [simplifyTop, selectTop_all_cases, topEqns_eq_flatMap]
+
+/-- **simplify(all=True), end to end over the abs cases.**  If for every case text `c` of `absval` the value
+`_simplify` returns for `c` IN THIS CALL holds exactly where `c` holds, then what `simplify` returns holds exactly
+where some abs case holds (which, by `abs_expand_sound`, is where the input holds). -/
+theorem simplify_top_all_sound (satT : T → X → Prop) (sat : U → X → Prop) (r : Nat) (cons : Ret T)
+    (simple : T → Ret U) (h : ∀ c ∈ cons.texts, ∀ x, retHolds sat (simple c) x ↔ satT c x) (x : X) :
+    topHolds sat (simplifyTop true r cons simple) x ↔ ∃ c ∈ cons.texts, satT c x := by
+  unfold topHolds
+  rw [simplify_top_all_complete]
+  constructor
+  · rintro ⟨u, hu, hs⟩
+    obtain ⟨c, hc, hcu⟩ := List.mem_flatMap.mp hu
+    exact ⟨c, hc, (h c hc x).mp ⟨u, hcu, hs⟩⟩
+  · rintro ⟨c, hc, hs⟩
+    obtain ⟨u, hcu, hu⟩ := (h c hc x).mpr hs
+    exact ⟨u, List.mem_flatMap.mpr ⟨c, hc, hcu⟩, hu⟩
+
+/-- **any keywords (all=False included): what is returned lies inside the input.**  Every returned case is a case
+of some `_simplify` result of this call, so where it holds some abs case holds. -/
+theorem simplify_top_inside (satT : T → X → Prop) (sat : U → X → Prop) (all : Bool) (r : Nat) (cons : Ret T)
+    (simple : T → Ret U) (h : ∀ c ∈ cons.texts, ∀ x, retHolds sat (simple c) x → satT c x) (x : X)
+    (hx : topHolds sat (simplifyTop all r cons simple) x) : ∃ c ∈ cons.texts, satT c x := by
+  obtain ⟨u, hu, hs⟩ := hx
+  have hu2 := selectTop_cases_sub all r _ u hu
+  rw [topEqns_eq_flatMap] at hu2
+  obtain ⟨c, hc, hcu⟩ := List.mem_flatMap.mp hu2
+  exact ⟨c, hc, h c hc x ⟨u, hcu, hs⟩⟩
+
+/-- **all=False returns one of the cases all=True returns** (for a draw `r` inside the range, which
+`random.randint(0, len-1)` guarantees) -/
+theorem simplify_top_single_member (r : Nat) (cons : Ret T) (simple : T → Ret U)
+    (hr : r < (topEqns cons simple).length) :
+    ∃ a ∈ (simplifyTop true r cons simple).cases, simplifyTop false r cons simple = .single a := by
+  rw [simplifyTop, selectTop_all_cases]
+  exact selectTop_single r _ hr
+
+end top
+
+/-- **one sign case is NOT the whole answer (witness).**  `x0/x1 <= 2`: `_simplify(all=True)` yields the two cases
+`x1 > 0, x0 <= 2*x1` and `x1 < 0, x0 >= 2*x1`; answering `all=True` with the first case alone (what a result
+remembered from an `all=False` call amounts to) is rejected by the validator, and the point `(-1, -1)` satisfies the
+input but not the returned case. -/
+theorem single_case_not_whole_witness :
+    validate [Item.rat (⟨[1], 0⟩ : Form ℚ) ⟨[0, 1], 0⟩ .le 2]
+      [[⟨⟨[0, 1], 0⟩, .gt, ⟨[], 0⟩⟩, ⟨⟨[1], 0⟩, .le, ⟨[0, 2], 0⟩⟩]] = false ∧
+    (Item.rat (⟨[1], 0⟩ : Form ℚ) ⟨[0, 1], 0⟩ .le 2).sat (fun _ => -1) ∧
+    ¬ satAll [(⟨⟨[0, 1], 0⟩, .gt, ⟨[], 0⟩⟩ : Line ℚ), ⟨⟨[1], 0⟩, .le, ⟨[0, 2], 0⟩⟩] (fun _ => -1) := by
+  refine ⟨by decide +kernel, ?_, ?_⟩
+  · simp [Item.sat, Form.eval, dot, Cmp.holds]
+  · intro h
+    have h0 := h ⟨⟨[0, 1], 0⟩, .gt, ⟨[], 0⟩⟩ (by simp)
+    simp [Line.sat, Form.eval, dot, Cmp.holds] at h0
+    norm_num at h0
 
 /-! ## non-vacuity: the validators accept real rewrites and reject the targeted mistakes (at `ℚ`) -/
 
